@@ -4,6 +4,7 @@ import (
 	"bytes"
 	"errors"
 	"fmt"
+	"math/rand"
 	"strconv"
 	"strings"
 	"time"
@@ -17,6 +18,31 @@ import (
 )
 
 func init() { gens["C20"] = genC20 }
+
+// genC20Long: logs several times longer than the reader's 4096-byte buffer, read back whole and in
+// pieces handed over by a transport that returns short reads.
+func genC20Long(o *hx.Out, r *rand.Rand, tier string) {
+	nlong := 2
+	if tier == "thorough" {
+		nlong = 12
+	}
+	for i := 0; i < nlong; i++ {
+		n := 350 + r.Intn(300)
+		bw := &budgetWriter{budget: 1 << 30}
+		w := &tlog.Writer{ByteWriter: bw}
+		w.Initialize() //nolint:errcheck
+		for j := 0; j < n; j++ {
+			fr := randFrame(r, r.Intn(2) == 0, r.Intn(4) == 0)
+			raw := fr.GetMessage().(*message.MessageRaw)
+			if len(raw.Payload) > 30 {
+				raw.Payload = raw.Payload[:r.Intn(30)]
+			}
+			t := time.UnixMicro(1700000000000000 + int64(j)*1000 + int64(r.Intn(1000)))
+			w.Write(&tlog.Entry{Time: t, Frame: fr}) //nolint:errcheck
+		}
+		o.Add("read long log", tlogRead(bw.data, nil, n+2), "tlogr", "-", strconv.Itoa(n+2), hx.Hex(bw.data))
+	}
+}
 
 type budgetWriter struct {
 	budget int
@@ -147,4 +173,5 @@ func genC20(o *hx.Out, tier string) {
 			o.Add("read cut", tlogRead(file[:k], wdrw, reads), "tlogr", dn, strconv.Itoa(reads), hx.Hex(file[:k]))
 		}
 	}
+	genC20Long(o, r, tier)
 }
